@@ -721,7 +721,8 @@ def gen_case(seed, i, tier):
     idmap = dict(zip(ids, names + ["n%d" % k for k in range(len(ids))]))
     approx = str(rng.choice(["exact", "perturbed", "perturbed", "omitted"]))
     if approx == "perturbed":
-        amp = float(rng.choice([0.002, 0.02, 0.2]))
+        # small against tol-abs, so that gama does not exclude a sound observation because of the perturbation
+        amp = float(rng.choice([0.002, 0.02, p["tol_abs"] / 1000.0 / 8]))
         for q in net.points.values():
             if q.xy == "free":
                 q.dE, q.dN = [float(x) for x in rng.uniform(-amp, amp, 2)]
@@ -977,9 +978,9 @@ def check_chain(ck, case, res, seed, tier):
                 if fld in ("point-missing", "point-status", "point-coordinates-lost") and pid is not None:
                     if any(norm_id(pid) == norm_id(x) for x in rm_pts):
                         fld += ":removed-by-adjustment"
-                if fld.startswith("obs:value:") and ell and fld.endswith(":value"):
+                if fld.startswith("obs:value:") and ell and fld.endswith((":value", ":sexagesimal-rounding")):
                     # observations reduced to the ellipsoid (latitude / ellipsoid given) are exported reduced
-                    fld = fld[:-len(":value")] + ":ellipsoid-reduction"
+                    fld = fld.rsplit(":", 1)[0] + ":ellipsoid-reduction"
                 if _is_math(fld):
                     math_diff.add(fld)
                 if fld in seen:
@@ -1025,6 +1026,12 @@ def check_chain(ck, case, res, seed, tier):
                  "approximate coordinates of exported in%d are not the adjusted coordinates of out%d: %s" % (k + 1, k, worst[1]), round=k)
         # ---------------- (c) same adjustment, no iterations
         if g1.xml is None or g1.xml.get("kind") != "adjustment":
+            continue
+        rm1 = sorted((e["type"], e["from"], e["to"]) for e in g1.trace if e.get("kind") == "rm_obs_abs_term")
+        if rm1 != sorted((e["type"], e["from"], e["to"]) for e in rm_obs):
+            # gama excludes observations by their absolute terms, which depend on the approximate coordinates; the
+            # export (rightly) still describes them, and with updated coordinates the decision may change
+            ck.inconc("round %d: observations excluded for gross absolute terms differ from the previous round" % (k + 1))
             continue
         if math_diff:
             # the exported file describes a different mathematical model (reported above under its own key):
@@ -1074,8 +1081,10 @@ def check_chain(ck, case, res, seed, tier):
             ell = A["params"]["has-latitude"] or A["params"]["has-ellipsoid"]
             for b in compare_models(A, B, ck=ck, label="(fixed point) ", approx_tol=TOL_XY):
                 fld = b[0]
-                if ell and (fld.startswith("obs:value:") and fld.endswith(":value") or fld == "approx-coordinate"):
-                    fld = fld.rsplit(":value", 1)[0] + ":ellipsoid-reduction"
+                if ell and fld.startswith("obs:value:") and fld.endswith((":value", ":sexagesimal-rounding")):
+                    fld = fld.rsplit(":", 1)[0] + ":ellipsoid-reduction"
+                elif ell and fld == "approx-coordinate":
+                    fld += ":ellipsoid-reduction"
                 if fld in seen:
                     continue
                 seen.add(fld)
